@@ -3,7 +3,8 @@
 usage: seed_prompt.py Cnn <tag>"""
 import json, sys
 pid, tag = sys.argv[1], sys.argv[2]
-hard = len(sys.argv) > 3 and sys.argv[3] in ("hard", "seq", "surface")
+hard = len(sys.argv) > 3 and sys.argv[3] in ("hard", "seq", "surface", "value")
+value = len(sys.argv) > 3 and sys.argv[3] == "value"
 seq = len(sys.argv) > 3 and sys.argv[3] == "seq"
 surface = len(sys.argv) > 3 and sys.argv[3] == "surface"
 benign = len(sys.argv) > 3 and sys.argv[3] == "benign"
@@ -16,7 +17,9 @@ HARD = ("""Assume that ordinary randomised testing exists: someone runs the publ
 
 """ if seq else "") + ("""For this round, first list for yourself every separate CLAUSE of the statement (each thing it promises) and every public ENTRY POINT, generic instantiation, option or configuration through which the promised behaviour can be reached (in-memory vs file vs directory variants, reader vs multi-reader, one remapper type vs another, a flag such as remap = true / false, N = 2 / 3 / 4 namespaces, a jar held in memory vs opened from a file, ...). Prefer changes of these kinds: (1) ONE VARIANT ONLY — the change breaks the property through one of several equivalent entry points / instantiations / options while the most commonly used one stays right; (2) THE LEAST TESTED CLAUSE — the change breaks the clause of the statement that a tester is least likely to have thought about, leaving the headline behaviour intact; (3) A SHARED HELPER FAR AWAY — the edit is in a helper or another crate of the workspace (string codec, name types, descriptor helpers, jar entry handling, ordering / hashing helpers) that the anchored code calls, and reaches the property only along one specific path; (4) ENVIRONMENT — the result depends on something outside the input value: directory listing order, files already present in an output directory, entry order / compression / metadata inside a zip, a file read in chunks, path shape. At least one of your two changes must be of kind (1) or (2).
 
-""" if surface else "")
+""" if surface else "") + ("""For this round, prefer changes whose trigger is a particular VALUE or a particular COMBINATION OF TWO INPUT FEATURES, where every other value and each feature on its own still behaves correctly: (1) VALUE-TRIGGERED — a specific character, byte or code point in a name or string (a digit first, a keyword of the text format used as a name, a separator character that is legal inside a name, a character whose UTF-8 / modified-UTF-8 encoding has a particular length), a number at the edge of its type or sign (0, -1, 127/128, 255/256, 32767/32768, 65535, i32::MIN, NaN, -0.0), an EMPTY string / list / comment / table, two EQUAL elements, the FIRST or LAST element of a list, a name that is a prefix or suffix of another name; (2) FEATURE INTERPLAY — two features of the input that each work alone and only go wrong together (e.g. a wide instruction form inside an exception range, a comment on an entry that lacks a name, an inner class inside an array descriptor, a renamed class that is also an annotation type, a parameter on a method that is added by a diff, a classifier together with an import-scoped BOM); (3) A CONVERSION — a narrowing cast, a lossy string conversion, a sort or dedup with a slightly wrong key, a comparison that is case-insensitive or ignores one component. Read the code first and pick sites that the existing tests and an ordinary random generator are unlikely to reach with the needed value. At least one of your two changes must be of kind (2).
+
+""" if value else "")
 if benign:
     print(f"""You are helping to evaluate a verification effort for the Rust workspace zeichenreihe/feather-build-rs (Java class-file reading/writing crates `duke`, `raw_class_file`; jar tooling `dukebox`, `dukenest`; Minecraft mapping-file tooling `quill`; a Maven resolver; a binary in src/). Independent checkers watch the semantic property below. A good checker raises NO alarm on code for which the property still holds. Your job: produce THREE independent, realistic code changes that each change OBSERVABLE behaviour of the code involved while the property, exactly as STATED, still holds for every input — the kind of legitimate refactoring, optimisation or behaviour change a maintainer makes all the time and that an over-strict checker would wrongly flag.
 
